@@ -97,7 +97,11 @@ Theorem C19_one_message_at_a_time : forall pipe reuse cs (polls : list poll_item
 Proof. exact smtp_one_at_a_time. Qed.
 Print Assumptions C19_one_message_at_a_time.
 
-(* ... and after a failed transaction RSET is written before the next MAIL *)
+(* ... and after a failed transaction RSET is written before the next MAIL - for every failure
+   kind: encoding, MAIL / all recipients / DATA / content rejected (reported with set_exception,
+   WResult _ false) and all recipients rejected in mixed 4xx/5xx classes (_set_failure's
+   rcpt_errors branch: reported as a dict of per-recipient errors, WResultRcpts); see
+   smtp_mixed_rejection_example *)
 Theorem C19_reset_after_failure : forall pipe reuse cs (polls : list poll_item),
     reset_after_failure false (run_wire pipe reuse cs polls) = true.
 Proof. exact smtp_reset_after_failure. Qed.
